@@ -23,14 +23,18 @@ func init() {
 	vpRegister("vpH_C08_inputs", vpH_C08_inputs)
 }
 
+// the configuration being built (-c); the fallback is always "opt"
+var vpC08Config = "opt"
+
 func vpC08State() *core.BuildState {
 	cfg := &core.Configuration{}
-	cfg.Build.Config = "opt"
+	cfg.Build.Config = vpC08Config
 	cfg.Build.FallbackConfig = "opt"
 	return &core.BuildState{Config: cfg, Graph: core.NewGraph()}
 }
 
 func vpC08Base() *core.BuildTarget {
+	vpC08Config = "opt" // (every harness starts by making its base targets)
 	t := core.NewBuildTarget(core.BuildLabel{PackageName: "p", Name: "t"})
 	t.Command = "c"
 	t.AddOutput("o")
@@ -339,7 +343,14 @@ func vpNamedSrcShape(t *core.BuildTarget) []string {
 func vpH_C08_scalars() {
 	l := vpBound("strlen")
 	t1, t2 := vpC08Base(), vpC08Base()
-	switch vpChoice("attr", 8) {
+	switch vpChoice("attr", 9) {
+	case 8: // per-config command reached through the fallback config (-c dbg, no "dbg" entry)
+		a, b := vpNondetString("cmd1", l), vpNondetString("cmd2", l)
+		vpAssume(a != b)
+		vpC08Config = "dbg"
+		t1.Command, t2.Command = "", ""
+		t1.AddCommand("opt", a)
+		t2.AddCommand("opt", b)
 	case 0: // cmd
 		a, b := vpNondetString("cmd1", l), vpNondetString("cmd2", l)
 		vpAssume(a != b)
